@@ -1,6 +1,7 @@
 #!/bin/sh
 # tools/confirm_seed.sh <seed-dir with patch.diff + demo_test.go> <pkg dir relative to teamserver> <go test -run regex> [yaotl]
 # Confirms in a scratch worktree: patch applies, builds, demo FAILS with it and PASSES without it.
+# SEEDTAGS="-tags verif" in the environment builds the demo under the hook tag.
 # With a 4th arg "yaotl" also runs the pinned yaotl test suite with the patch applied.
 D="$(readlink -f "$1")"; PKG="$2"; RUN="$3"; Y="$4"
 export GOFLAGS=-mod=mod GOPROXY=off GOSUMDB=off GOTOOLCHAIN=local
@@ -8,10 +9,10 @@ WT=$(mktemp -d /tmp/confirm.XXXXXX)
 git -C /repo worktree add -q --detach "$WT" HEAD || exit 2
 cd "$WT" || exit 2
 cp "$D"/demo_test.go "teamserver/$PKG/zz_demo_test.go"
-(cd teamserver && go test -vet=off -count=1 -run "$RUN" "./$PKG/" >"$WT/without.txt" 2>&1); W0=$?
+(cd teamserver && go test $SEEDTAGS -vet=off -count=1 -run "$RUN" "./$PKG/" >"$WT/without.txt" 2>&1); W0=$?
 git apply "$D/patch.diff" || { echo "APPLY-FAILED"; }
 (cd teamserver && go build ./... >"$WT/build.txt" 2>&1); B=$?
-(cd teamserver && go test -vet=off -count=1 -run "$RUN" "./$PKG/" >"$WT/with.txt" 2>&1); W1=$?
+(cd teamserver && go test $SEEDTAGS -vet=off -count=1 -run "$RUN" "./$PKG/" >"$WT/with.txt" 2>&1); W1=$?
 YR="-"
 if [ "$Y" = "yaotl" ]; then (cd teamserver && go test -vet=off -count=1 ./pkg/profile/yaotl/... >"$WT/yaotl.txt" 2>&1); YR=$?; fi
 echo "CONFIRM $(basename $(dirname $D))/$(basename $D): build=$B demo_without=$W0 (want 0) demo_with=$W1 (want !=0) yaotl=$YR"
